@@ -451,6 +451,12 @@ func runC20(c *Ctx) {
 			if ctype != "" {
 				req.Header.Set("Content-Type", ctype)
 			}
+			if op.kind != c20Put && (op.chunk+len(method)+len(op.text))%3 == 0 {
+				// what a request is, is its method: headers by which proxies and
+				// frameworks tunnel one method inside another change nothing
+				req.Header.Set([]string{"X-HTTP-Method-Override", "X-Method-Override", "X-HTTP-Method"}[op.chunk%3], []string{"PUT", "GET", "put"}[(op.chunk/3+len(method))%3])
+				c.R.Probe("request with a method-override header")
+			}
 			rec := httptest.NewRecorder()
 			before := reg
 			plainReq := (op.form || ctype == "application/json" || ctype == "") && !trailing && !dup && fr.at < 0 && op.long == 0
